@@ -195,6 +195,31 @@ def run(res):
         else:
             route_agree += 1
 
+    # incremental route: the closure programs of G.incremental_program piece by piece on one compiler and one VM (c18obs)
+    c18obs, err18 = C.go_build("c18obs")
+    inc_checked = 0
+    if c18obs:
+        nin = 300 if tier == "quick" else 6000
+        incs = [G.incremental_program(rng) for _ in range(nin)]
+        p18 = subprocess.run([c18obs], input=("\n".join(",".join(x.encode().hex() for x in pcs) for pcs in incs) + "\n").encode(), stdout=subprocess.PIPE)
+        for pcs, line in zip(incs, p18.stdout.decode("utf-8", "replace").splitlines()):
+            if "\t" not in line:
+                continue
+            inc, whole = line.split("\t", 1)
+            if not whole.startswith("WHOLE OK") or "TIMEOUT" in line:
+                continue
+            inc_checked += 1
+            last = inc[len("INC "):].split(" GLOBALS")[0].split("|")[-1]
+            wres = whole[len("WHOLE "):].split(" GLOBALS")[0]
+            if last != wres:
+                oracle.append({"kind": "oracle-violation", "stage": "route independence: incremental", "source": "\n".join(pcs),
+                               "incremental": inc[:600], "whole": whole[:300],
+                               "why": "functions nested in other functions, called piece by piece on one compiler and one VM, do not see "
+                                      "the top-level variables that the same program evaluated as a whole gives them"})
+        route_hist["incremental"] = inc_checked
+    else:
+        corr.append({"stage": "build c18obs", "log": (err18 or "")[-500:]})
+
     red_agree = red_skipped = 0
     for (pre, src), g, m, code in zip(reduced, red_go, red_mo, red_code):
         if m.startswith("STUCK") or "rejected" in m:
